@@ -467,7 +467,8 @@ func report(o checkOpts, eng *Engine, x *Explorer, hs []*Harness, seed int64, st
 			"explanation":                   "states = symbolic paths explored (each a set of concrete executions); transitions = SMT queries decided (branch feasibility + assertion obligations); every path of every harness inside the stated bounds was explored unless listed as inconclusive",
 			"harnesses":                     harnessEv,
 			"functions_encoded":             sortedKeys(funcs),
-			"queries":                       map[string]interface{}{"total": x.solverStats.queries, "sat": x.solverStats.sat, "unsat": x.solverStats.unsat, "unknown": x.solverStats.unknown, "solver_error_lines": x.solverStats.errors},
+			"queries":                       map[string]interface{}{"total": x.solverStats.queries, "sat": x.solverStats.sat, "unsat": x.solverStats.unsat, "unknown": x.solverStats.unknown, "solver_error_lines": x.solverStats.errors,
+				"one_shot_portfolio_retries": x.solverStats.fallback, "one_shot_portfolio_solved": x.solverStats.fallbackSolved},
 			"solver":                        "z3 4.8.12 (-in, incremental push/pop, integer-first encoding)",
 			"solver_time_s":                 x.solverStats.time.Seconds(),
 			"load_time_s":                   eng.loadTime.Seconds(),
@@ -486,8 +487,8 @@ func report(o checkOpts, eng *Engine, x *Explorer, hs []*Harness, seed int64, st
 			fmt.Fprintln(os.Stderr, "cannot write evidence:", err)
 		}
 	}
-	fmt.Printf("property %s tier=%s: harnesses=%d paths=%d queries=%d (sat=%d unsat=%d unknown=%d) violations=%d inconclusive=%d wall=%.1fs\n",
-		o.property, o.tier, len(hs), totalStates, x.solverStats.queries, x.solverStats.sat, x.solverStats.unsat, x.solverStats.unknown, nViol, inconclusive, time.Since(start).Seconds())
+	fmt.Printf("property %s tier=%s: harnesses=%d paths=%d queries=%d (sat=%d unsat=%d unknown=%d, portfolio retries=%d) violations=%d inconclusive=%d wall=%.1fs solver=%.0fs\n",
+		o.property, o.tier, len(hs), totalStates, x.solverStats.queries, x.solverStats.sat, x.solverStats.unsat, x.solverStats.unknown, x.solverStats.fallback, nViol, inconclusive, time.Since(start).Seconds(), x.solverStats.time.Seconds())
 	if exit == 0 && o.strict && inconclusive > 0 {
 		return 2
 	}
